@@ -33,6 +33,22 @@ func runC08(c *core.Ctx) {
 	}
 	t, e := w.T, w.E
 	checkModelShape(c, t, e, "model", true)
+	// a hostile pair: an error whose Error() method panics, on either side
+	if c.Case%4 == 0 {
+		hostile := &gen.PanicLeaf{}
+		if p := core.Try(func() {
+			c.Count("is-with-panicking-Error()", 4)
+			if errors.Is(e, hostile) || errors.IsAny(e, hostile, hostile) {
+				c.Violate("hostile/positive", "an error matches an unrelated reference whose Error() panics", t.String())
+			}
+			_ = errors.Is(hostile, e)
+			if !errors.Is(hostile, hostile) {
+				c.Violate("hostile/reflexive", "Is(x, x) is false for an error whose Error() panics", t.String())
+			}
+		}); p != nil {
+			c.Violate("hostile/panic", "Is / IsAny panicked for a pair in which one error's Error() method panics", fmt.Sprintf("%s\n%v", t, p))
+		}
+	}
 	pos, neg := 0, 0
 	type cand struct {
 		name string
